@@ -554,12 +554,14 @@ func (s *Snapshotter) replay() error {
 	}
 
 	// Read each line
+	var good int64
 	reader := bufio.NewReader(s.fh)
 	for {
 		line, err := reader.ReadString('\n')
 		if err != nil {
 			break
 		}
+		good += int64(len(line))
 
 		// Skip the newline
 		line = line[:len(line)-1]
@@ -626,6 +628,16 @@ func (s *Snapshotter) replay() error {
 		} else {
 			s.logger.Printf("[WARN] serf: Unrecognized snapshot line: %v", line)
 		}
+	}
+
+	// A crash can leave a partially written last line. It carries no usable
+	// record; drop it, otherwise the next record appended would be fused with it
+	// into one garbage line.
+	if good < s.offset {
+		if err := s.fh.Truncate(good); err != nil {
+			return err
+		}
+		s.offset = good
 	}
 
 	// Seek to the end
